@@ -348,6 +348,7 @@ func (u *unitCtx) stmt(level int) {
 		u.simpleStmt(level)
 	default:
 		u.compound(level, k)
+		u.callAfterScope(level)
 	}
 }
 
@@ -584,6 +585,7 @@ func (u *unitCtx) wideStmt(level int) {
 		w.S(" while (")
 		u.cond(level)
 		w.S(");")
+		u.callAfterScope(level)
 	case 1: // try-with-resources: the resource is a variable of the try statement
 		c := u.collabFields()
 		if len(c) == 0 {
@@ -601,10 +603,12 @@ func (u *unitCtx) wideStmt(level int) {
 		u.blockWithReturn(level+1, "")
 		u.scope = u.scope[:len(u.scope)-1]
 		w.S(u.ind(level) + "}")
+		u.callAfterScope(level)
 	case 2: // synchronized block
 		w.S("synchronized (this) {")
 		u.blockWithReturn(level+1, "")
 		w.S(u.ind(level) + "}")
+		u.callAfterScope(level)
 	case 3: // throw
 		w.S("throw new IllegalStateException(")
 		line, col := w.Line(), w.Col()-len("IllegalStateException(")
